@@ -111,6 +111,24 @@ impl<'a> Tr<'a> {
         Ok(out)
     }
 
+    /// `x.m()` resolved to a configured TRAIT method while the type has an inherent method `m` (which Rust prefers)
+    pub fn check_not_shadowed(&self, f: &FnInfo, at: &Expr) -> R<()> {
+        if f.trait_name.is_none() {
+            return Ok(());
+        }
+        let base = f.self_ty.as_deref().unwrap_or("").rsplit('.').next().unwrap().split('<').next().unwrap().to_string();
+        let inherent_configured = self.t.fns.iter().any(|g| g.self_ty == f.self_ty && g.name == f.name && g.trait_name.is_none());
+        if inherent_configured {
+            return Ok(());
+        }
+        for d in self.t.file_defs.values() {
+            if d.inherent.contains(&(base.clone(), f.name.clone())) {
+                return Err(unsupported(at, &format!("method `{}` resolves to the configured trait method `{}`, but `{}` also has an inherent method `{}` (which Rust prefers) that is not configured", f.name, f.key, base, f.name)));
+            }
+        }
+        Ok(())
+    }
+
     pub fn find_fns(&self, self_ty: Option<&str>, name: &str) -> Vec<FnInfo> {
         self.t.fns.iter().filter(|f| f.self_ty.as_deref() == self_ty && f.name == name).cloned().collect()
     }
@@ -159,10 +177,14 @@ impl<'a> Tr<'a> {
                 }
                 return Err(unsupported(at, &format!("call of local `{}` which is not a closure", n)));
             }
-            let fs = self.find_fns(None, n);
+            let local_def = self.t.file_defs.get(&self.cur_file).map(|d| d.fns.contains(n)).unwrap_or(false);
+            let fs: Vec<FnInfo> = self.find_fns(None, n).into_iter().filter(|f| !local_def || f.file == self.cur_file).collect();
             if fs.len() == 1 {
                 let cg = self.turbofish_consts(last, env, Some(&fs[0]))?;
                 return self.apply_fn(&fs[0], &cg, None, &args, env, at);
+            }
+            if local_def {
+                return Err(unsupported(at, &format!("call of `{}`: this file defines its own `{}`, which is not configured (a function of that name configured from another file is a different function)", n, n)));
             }
             if (n == "min" || n == "max") && args.len() == 2 {
                 return self.minmax(n, args[0], args[1], env, hint, at);
@@ -332,9 +354,18 @@ impl<'a> Tr<'a> {
                     if fs[0].self_kind == SelfKind::None {
                         return Err(unsupported(at, "method call of an associated function without self"));
                     }
+                    self.check_not_shadowed(&fs[0], at)?;
                     return self.apply_fn(&fs[0], &[], Some(&recv), &args, env, at);
                 }
                 if name == "clone" && args.is_empty() {
+                    let ok = match self.t.adts.get(&n) {
+                        Some(Adt::Struct(s)) => s.module.contains("clone:"),
+                        Some(Adt::Enum(e)) => e.module.contains("clone:") || e.name == "Ordering",
+                        None => false,
+                    };
+                    if !ok {
+                        return Err(unsupported(at, &format!("`clone()` on `{}`, which does not derive Clone / Copy (a hand-written clone is not translated)", n)));
+                    }
                     return Ok(recv);
                 }
                 if name == "into" && args.is_empty() {
@@ -592,6 +623,9 @@ impl<'a> Tr<'a> {
             }
             ("filter", 1) => {
                 let (p, b) = self.closure1(args[0], inner, env, Some(&Ty::Bool))?;
+                if p != "_" && !p.chars().all(|c| c.is_alphanumeric() || c == '_' || c == '\'') {
+                    return Err(unsupported(at, "`Option::filter` with a destructuring closure parameter"));
+                }
                 let keep = if p == "_" { recv.s.clone() } else { format!("Some {}", p) };
                 Ok(Val { s: format!("(match {r} with | Some {p} => if {b} then {k} else None | None => None end)", r = recv.s, p = p, b = b.s, k = keep), ty: recv.ty.clone() })
             }
